@@ -65,6 +65,59 @@ type dExpr struct {
 	span    [2]int // byte span of the whole expression in the input
 
 	reS, reI *regexp.Regexp
+	rd       *reading // nil = the primary documented reading
+}
+
+// reading selects one of the interpretations C06 evaluates a string under.
+//
+//   - regexNames: the documentation says of `regex:` "Matches content using a regular
+//     expression" and says nothing else about it. Whether a file NAME that matches also
+//     selects the document (as it does for a bare pattern) is not stated, so C06 evaluates
+//     both readings and judges a document only when they agree.
+//   - parsedASCIICase is NOT a documented reading: it is the behaviour recorded as known
+//     finding "case-auto/*" (case:auto decided on the ASCII letters of the parsed regular
+//     expression instead of the letters of the pattern). It is only used to decide whether
+//     a disagreement is exactly that finding.
+type reading struct {
+	regexNames      bool
+	parsedASCIICase bool
+}
+
+func (g *dGroup) setReading(rd *reading) {
+	for _, cl := range g.clauses {
+		for _, e := range cl {
+			e.rd = rd
+			if e.kind == kGroup {
+				e.group.setReading(rd)
+			}
+		}
+	}
+}
+
+// parsedASCIISensitive: does the pattern, parsed and simplified as a Go regular
+// expression, hold a literal rune or a character-class bound in 'A'..'Z'?
+func parsedASCIISensitive(p string) bool {
+	re, err := syntax.Parse(p, syntax.ClassNL|syntax.PerlX|syntax.UnicodeGroups)
+	if err != nil {
+		return hasUpper(p)
+	}
+	var walk func(r *syntax.Regexp) bool
+	walk = func(r *syntax.Regexp) bool {
+		if r.Op == syntax.OpLiteral || r.Op == syntax.OpCharClass {
+			for _, c := range r.Rune {
+				if c >= 'A' && c <= 'Z' {
+					return true
+				}
+			}
+		}
+		for _, s := range r.Sub {
+			if walk(s) {
+				return true
+			}
+		}
+		return false
+	}
+	return walk(re.Simplify())
 }
 
 // dGroup is one `query`: or-separated conjunctions plus the modifiers of this scope.
@@ -578,6 +631,9 @@ func (e *dExpr) sensitive(mode string) bool {
 	case "no":
 		return false
 	}
+	if e.rd != nil && e.rd.parsedASCIICase {
+		return parsedASCIISensitive(e.pat)
+	}
 	return hasUpper(e.pat)
 }
 
@@ -635,7 +691,13 @@ func (e *dExpr) evalPos(mode string, r *kit.Repo, d *kit.Doc) bool {
 	case "text":
 		re := e.regex(e.sensitive(mode))
 		return re.MatchString(d.Name) || re.MatchString(d.Text())
-	case "content", "regex":
+	case "regex":
+		re := e.regex(e.sensitive(mode))
+		if e.rd != nil && e.rd.regexNames && re.MatchString(d.Name) {
+			return true
+		}
+		return re.MatchString(d.Text())
+	case "content":
 		return e.regex(e.sensitive(mode)).MatchString(d.Text())
 	case "file":
 		return e.regex(e.sensitive(mode)).MatchString(d.Name)
@@ -906,13 +968,13 @@ func classify(g *dGroup, zq query.Q) string {
 		if zs != e.sensitive("auto") {
 			switch {
 			case f.flagGroup:
-				return "case-auto/inline-flag"
+				return "case flag not explained by the known case:auto finding/inline-flag"
 			case f.nonASCIIUpper:
-				return "case-auto/non-ascii-upper"
+				return "case flag not explained by the known case:auto finding/non-ascii-upper"
 			case strings.Contains(e.pat, `\w`) || strings.Contains(e.pat, "["):
-				return "case-auto/char-class"
+				return "case flag not explained by the known case:auto finding/char-class"
 			}
-			return "case-auto"
+			return "case flag not explained by the known case:auto finding"
 		}
 	}
 	switch {
